@@ -258,7 +258,9 @@ impl ISocket for ReqSocket {
     {
       let mut state_guard = self.state.lock();
       if matches!(*state_guard, ReqState::ExpectingReply { .. }) {
-        let finished = received_msg_result.as_ref().map_or(true, |m| !m.is_more());
+        // Only a received reply completes the request/reply cycle; a recv that failed (timeout,
+        // would-block) leaves the socket expecting the reply, so the caller may call recv again.
+        let finished = received_msg_result.as_ref().map_or(false, |m| !m.is_more());
         if finished {
           *state_guard = ReqState::ReadyToSend;
           should_notify = true;
@@ -301,7 +303,7 @@ impl ISocket for ReqSocket {
 
     {
       let mut state_guard = self.state.lock();
-      if matches!(*state_guard, ReqState::ExpectingReply { .. }) {
+      if result.is_ok() && matches!(*state_guard, ReqState::ExpectingReply { .. }) {
         *state_guard = ReqState::ReadyToSend;
         self.reply_available_notifier.notify_waiters();
       }
